@@ -17,8 +17,8 @@ META = {"engine": "A floscript", "technique": "fault injection at enumerated cra
 
 FEATS = [
     dict(nframers=(2, 3), nframes=(2, 5), p_bids=0.3, p_stop_bid_mid=0.6, p_inactive=0.25, ticks=(5, 10), nplan=(1, 4), order=True,
-         p_period=0.2, p_done_main=0.3),
-    dict(nframers=(2, 3), nframes=(2, 4), p_bids=0.2, p_stop_bid_mid=0.4, p_aux=0.4, naux=(1, 2), ticks=(5, 9), nplan=(1, 3)),
+         p_period=0.45, p_done_main=0.3),
+    dict(nframers=(2, 3), nframes=(2, 4), p_bids=0.2, p_stop_bid_mid=0.4, p_aux=0.4, naux=(1, 2), ticks=(5, 9), nplan=(1, 3), p_period=0.3),
     dict(nframers=(1, 2), nframes=(2, 4), nslaves=(1, 1), p_fiat=0.6, p_bids=0.2, ticks=(5, 9), nplan=(1, 3), p_stop_bid_mid=0.3),
 ]
 RUNNINGS = ("started", "running")
@@ -90,7 +90,8 @@ def judge(ctx, prog, text, res, kind, point, info, monitors):
 
 def worker(ctx, job):
     from vf.flo import runner, monitors
-    for seed, fi in job["items"]:
+    todo = [(seed, fi, False) for seed, fi in job["items"]] + [(seed, fi, True) for seed, fi in job.get("clean_only", [])]
+    for seed, fi, clean_only in todo:
         rng = random.Random(seed)
         prog = gen.gen_program(rng, gen.feat(**FEATS[fi]))
         text = P.render(prog)
@@ -102,6 +103,9 @@ def worker(ctx, job):
         info = monitors.Info(prog)
         judge(ctx, prog, text, res, "clean", None, info, monitors)
         ctx.case([text, "clean"], nontrivial=True)
+        if clean_only:            # many more programs for the termination rule alone (one run each, no crash points)
+            ctx.hit("clean_only_runs")
+            continue
         # crash points are (tick, action) pairs: actions run by the final abort sweep itself are not ticks
         nsweep = res.presweep["seq"] if res.presweep else len(res.trace)
         points = [(e["tag"], e["n"]) for e in res.trace[:nsweep]]
@@ -135,10 +139,13 @@ def worker(ctx, job):
 def run(ctx):
     n = ctx.pick(40, 400)
     items = [(ctx.rng.randrange(1 << 30), i % len(FEATS)) for i in range(n)]
-    ctx.shard([{"items": items[i::16], "maxpoints": ctx.pick(25, 60), "maxticks": ctx.pick(6, 20)} for i in range(16)],
+    extra = [(ctx.rng.randrange(1 << 30), i % len(FEATS)) for i in range(ctx.pick(480, 8000))]
+    ctx.shard([{"items": items[i::16], "clean_only": extra[i::16], "maxpoints": ctx.pick(25, 60), "maxticks": ctx.pick(6, 20)}
+               for i in range(16)],
               timeout=ctx.pick(300, 1500))
     ctx.floor("crash_exception", 20)
     ctx.floor("crash_kbd_action", 20)
     ctx.floor("crash_kbd_tick", 20)
     ctx.floor("ended_nothing_running", 1)
     ctx.floor("swept_taskers", 100)
+    ctx.floor("clean_only_runs", ctx.pick(400, 7000))
